@@ -115,13 +115,16 @@ class Resolver:
                 r = alts[0]
             else:
                 r = ("phi", l, tuple(alts))
-        if not _has_local(r, stack):
-            self.memo[l] = r
+        # always memoise: a cut point ('local', x) inside r marks a cyclic (loop-carried)
+        # dependence; keeping the first result makes resolution linear in the body size
+        self.memo[l] = r
         return r
 
     def from_def(self, d, depth, stack):
         if d.kind == "call":
             return self.call(d.data, depth, stack)
+        if d.kind == "store":
+            return ("call", "mut:store", (self.rvalue(d.data["r"], depth, stack),))
         if d.kind == "mutcall":
             t = d.data
             f = t.get("f")
@@ -231,38 +234,40 @@ def short(path):
     return p.split("::")[-1]
 
 
-def render(t):
+def render(t, depth=0):
     if not isinstance(t, tuple) or not t:
         return str(t)
+    if depth > 14:
+        return "..."
     k = t[0]
     if k == "arg":
         return t[2]
     if k == "upvar":
         return "^" + t[1]
     if k == "field":
-        return f"{render(t[1])}.{t[2]}"
+        return f"{render(t[1], depth + 1)}.{t[2]}"
     if k == "variant":
-        return f"({render(t[1])} as {t[2]})"
+        return f"({render(t[1], depth + 1)} as {t[2]})"
     if k == "idx":
-        return f"{render(t[1])}[{render(t[2])}]"
+        return f"{render(t[1], depth + 1)}[{render(t[2], depth + 1)}]"
     if k == "call":
-        return f"{short(t[1])}({', '.join(render(a) for a in t[2])})"
+        return f"{short(t[1])}({', '.join(render(a, depth + 1) for a in t[2])})"
     if k == "const":
         return t[1]
     if k == "int":
         return str(t[1])
     if k == "bin":
-        return f"({render(t[2])} {t[1]} {render(t[3])})"
+        return f"({render(t[2], depth + 1)} {t[1]} {render(t[3], depth + 1)})"
     if k == "un":
-        return f"{t[1]}({render(t[2])})"
+        return f"{t[1]}({render(t[2], depth + 1)})"
     if k == "cast":
-        return f"({render(t[1])} as {t[2]})"
+        return f"({render(t[1], depth + 1)} as {t[2]})"
     if k == "agg":
-        return f"{short(t[1])}{{{', '.join(render(a) for a in t[2])}}}"
+        return f"{short(t[1])}{{{', '.join(render(a, depth + 1) for a in t[2])}}}"
     if k == "discr":
-        return f"discr({render(t[1])})"
+        return f"discr({render(t[1], depth + 1)})"
     if k == "phi":
-        return f"phi_{t[1]}({' | '.join(render(a) for a in t[2])})"
+        return f"phi_{t[1]}({' | '.join(render(a, depth + 1) for a in t[2])})"
     if k == "local":
         return f"_{t[1]}"
     if k == "fnref":
@@ -270,18 +275,22 @@ def render(t):
     return str(t)
 
 
-def subterms(t):
-    """all subterms, pre-order"""
+def subterms(t, _seen=None):
+    """all distinct subterms, pre-order (terms are DAGs: shared nodes are visited once)"""
+    if _seen is None:
+        _seen = set()
+    if not isinstance(t, tuple) or id(t) in _seen:
+        return
+    _seen.add(id(t))
     yield t
-    if isinstance(t, tuple):
-        for x in t[1:]:
-            if isinstance(x, tuple):
-                if x and isinstance(x[0], str):
-                    yield from subterms(x)
-                else:
-                    for y in x:
-                        if isinstance(y, tuple):
-                            yield from subterms(y)
+    for x in t[1:]:
+        if isinstance(x, tuple):
+            if x and isinstance(x[0], str):
+                yield from subterms(x, _seen)
+            else:
+                for y in x:
+                    if isinstance(y, tuple):
+                        yield from subterms(y, _seen)
 
 
 def alts(t):
